@@ -149,6 +149,15 @@ var props = map[string]*PropSpec{
 		},
 		Assumptions: []string{"memory is abstracted to one secrecy bit per allocation site / parameter (sound over-approximation); x25519.X25519's generic path branches on whether the output is all-zero (a deliberate declassification) and is outside the property's observation points"},
 	},
+	"C03": {
+		ID: "C03", Cone: []ConeItem{edAll, geAll, modmAll, curveAll}, Quick: twoLayouts, Thorough: allSix, Technique: techGovc + "; C03 itself is a lemma over contracts: the verif-tagged function verifRoundTrip (derive key, sign, verify) is checked against the contracts of NewKeyFromSeed, sign and verify only, with intermediate lemma steps",
+		Trusted: append([]string{
+			"axioms used by the lemma (contract file): RTDEC (an encoded point decodes to itself, B11), RTMODL/RTNEUT (B has order exactly L, M4), RTSUB/GDBL and one explicit instance of RTLC (arithmetic of multiples of B, M2), RTCLAMP (L does not divide 8a for a clamped scalar: 8a = kL would need 64 | k < 64) and RTCOP (L odd: L | 8x implies L | x)",
+			"the excluded case of the property (nonce hash = 0 mod L) is the precondition of verifRoundTrip",
+			"batch membership: G1 of VerifyBatch's contract (C06) -- an entry that single verification accepts is reported true at every position of a batch of any size, for every entropy stream that does not fail -- is proved relative to the trusted contract of multiScalarmultVartime (memory safety only); options -> (variant, context) is C07's table",
+		}, bridgeTrusted...),
+		Assumptions: []string{"everything C01 and C02 assume (their cones are part of this check): bridge lemmas, digit property of the sliding-window recoding, SHA-512 uninterpreted, the assembly selector's functional contract on amd64"},
+	},
 	"C04": {
 		ID:        "C04",
 		Cone:      []ConeItem{{Pkg: ".", Funcs: []string{"scMinimal", "verify", "VerifyBatch", "verifyWithOptionsNoPanic"}}, {Pkg: "internal/modm", Funcs: []string{"reduce", "barrettReduce", "Expand", "Contract"}}},
